@@ -52,7 +52,7 @@ def single_lines(tier):
         for a in DICT:
             for b in (DICT if (tier == 'thorough') else CORE + VALID[:6]):
                 yield h + ' ' + a + ', ' + b
-        three = DICT[:40] if tier == 'thorough' else CORE[:10]
+        three = DICT[:30] if tier == 'thorough' else CORE[:10]
         for a in three:
             for b in three:
                 for c in three:
@@ -246,7 +246,7 @@ def run(tier, seed, model_ok):
     for l in single_lines(tier):
         if n in (5, 1000): samples.append(PRELUDE + l)
         add('s%d' % n, PRELUDE + l, 'single line'); n += 1
-        if tier == 'thorough' or n % 23 == 1:
+        if n % (7 if tier == 'thorough' else 23) == 1:
             for cname, (pre, post) in CONTEXTS.items():
                 if cname == 'plain': continue
                 add('c_%s_%d' % (cname, n), PRELUDE + pre + l + post, 'line in context ' + cname)
@@ -297,8 +297,8 @@ def run(tier, seed, model_ok):
     return {
         'evaluations': total[0] + len(known), 'distinct_nontrivial': len(distinct),
         'rule': 'bounded-exhaustive single-line programs: %d heads (every mnemonic, every directive in . and # form, a macro call, a labelled line, nothing) x operand lists of length 0, 1, 2 (dictionary of %d valid/boundary/hostile texts; second operand over %s) and 3 (over %d texts); %s in 5 contexts (.dseg, .eseg, macro body, untaken .if, small device); a hostile multi-line corpus (%d programs: recursion, unbalanced directives, huge sizes, long lists/lines/chains, nesting, odd bytes); %d random programs and byte/token mutations of valid programs (up to 64 KiB); file trees (include cycles, chains of 60 and 70 includes, directory as file, binary file). Every input runs in a worker process with a %d GiB address-space limit and a watchdog; a dead or timed-out worker is bisected to the single input; inputs are processed in batches of %d' % (
-            len(heads()), len(DICT), 'the whole dictionary' if tier == 'thorough' else 'a core of %d' % len(CORE + VALID[:6]), 40 if tier == 'thorough' else 10,
-            'the same lines' if tier == 'thorough' else 'every 23rd of the same lines', len(corpus), nrand, LIMIT_AS >> 30, BATCH),
+            len(heads()), len(DICT), 'the whole dictionary' if tier == 'thorough' else 'a core of %d' % len(CORE + VALID[:6]), 30 if tier == 'thorough' else 10,
+            'every 7th of the same lines' if tier == 'thorough' else 'every 23rd of the same lines', len(corpus), nrand, LIMIT_AS >> 30, BATCH),
         'samples': samples[:2],
         'exhaustive': False,
         'distribution': dict(dist, wall_s=round(time.time() - t0, 1), results=dict(results)),
